@@ -260,6 +260,9 @@ def check_pair(res, kind, c1, c2, rep, want_state=True):
         for k in ("direct", "iso", "isonorm"):
             if rep.get(k) != impl[k]:
                 res.exact_break(f"compare:{k}", input=inp, impl=impl[k], model=rep.get(k))
+        if rep.get("directl") != impl["direct"]:
+            # the operation-list form of `direct` (the one the theorems are about) must agree with the implementation too
+            res.exact_break("compare:direct (operation-list form)", input=inp, impl=impl["direct"], model=rep.get("directl"))
         res.traces_validated += 1
     same_regs = c1[:3] == c2[:3]
     same_wires = same_regs and wires_no_c(c1[3]) == wires_no_c(c2[3])
